@@ -229,3 +229,107 @@ func intOpAudit(c *Ctx, rule, rel, dispatch, pkgPath, typeName string, table map
 	})
 	return n
 }
+
+// orderingKinds: the operand kinds (int, float, string) on which fn and its same-package callees (two levels)
+// perform an ordering comparison of two non-constant values.
+func orderingKinds(fn *ssa.Function, depth int, seen map[*ssa.Function]bool, out map[string]bool) {
+	if fn == nil || seen[fn] || depth > 2 || len(fn.Blocks) == 0 {
+		return
+	}
+	seen[fn] = true
+	eachInstr(fn, func(_ *ssa.BasicBlock, _ int, ins ssa.Instruction) {
+		switch x := ins.(type) {
+		case *ssa.BinOp:
+			if x.Op != token.LSS && x.Op != token.LEQ && x.Op != token.GTR && x.Op != token.GEQ {
+				return
+			}
+			if _, isC := x.X.(*ssa.Const); isC {
+				return
+			}
+			if _, isC := x.Y.(*ssa.Const); isC {
+				return
+			}
+			if bt, ok := x.X.Type().Underlying().(*types.Basic); ok {
+				switch {
+				case bt.Info()&types.IsInteger != 0:
+					if intPayload(x.X, 0) && intPayload(x.Y, 0) {
+						out["int"] = true
+					}
+				case bt.Info()&types.IsFloat != 0:
+					out["float"] = true
+				case bt.Info()&types.IsString != 0:
+					out["string"] = true
+				}
+			}
+		case ssa.CallInstruction:
+			if sf := staticFn(x); sf != nil && sf.Pkg == fn.Pkg {
+				orderingKinds(sf, depth+1, seen, out)
+			}
+		}
+	})
+}
+
+// armHandlers: the functions called from the arm of `dispatch`'s switch for the constant `cname`.
+func armHandlers(c *Ctx, rel, dispatch, pkgPath, typeName, cname string) []*ssa.Function {
+	d := c.decl(rel, dispatch)
+	p := c.pkg(rel)
+	var out []*ssa.Function
+	if d == nil || p == nil {
+		return nil
+	}
+	ast.Inspect(d, func(nd ast.Node) bool {
+		sw, ok := nd.(*ast.SwitchStmt)
+		if !ok || sw.Tag == nil {
+			return true
+		}
+		if t := p.TypesInfo.TypeOf(sw.Tag); t == nil || !typeIs(t, pkgPath, typeName) {
+			return true
+		}
+		for _, st := range sw.Body.List {
+			cc := st.(*ast.CaseClause)
+			match := false
+			for _, e := range cc.List {
+				var id *ast.Ident
+				switch x := e.(type) {
+				case *ast.Ident:
+					id = x
+				case *ast.SelectorExpr:
+					id = x.Sel
+				}
+				if id != nil {
+					if cst, ok := p.TypesInfo.Uses[id].(*types.Const); ok && cst.Name() == cname {
+						match = true
+					}
+				}
+			}
+			if !match {
+				continue
+			}
+			for _, s := range cc.Body {
+				ast.Inspect(s, func(m ast.Node) bool {
+					call, ok := m.(*ast.CallExpr)
+					if !ok {
+						return true
+					}
+					var fid *ast.Ident
+					switch f := call.Fun.(type) {
+					case *ast.Ident:
+						fid = f
+					case *ast.SelectorExpr:
+						fid = f.Sel
+					}
+					if fid != nil {
+						if fo, ok := p.TypesInfo.Uses[fid].(*types.Func); ok {
+							if sf := c.Prog.FuncValue(fo); sf != nil {
+								out = append(out, sf)
+							}
+						}
+					}
+					return true
+				})
+			}
+		}
+		return true
+	})
+	return out
+}
